@@ -313,7 +313,16 @@ func judgeC13(c c13Case) (string, string) {
 		ci.XAttrErrorHandler = func(string, string, string, error) error { return nil }
 	}
 	if err := boundedCopy(func() error {
-		return fscopy.Copy(context.Background(), srcDir, c.Src, dstDir, c.Dst, fscopy.WithCopyInfo(ci))
+		// how a root is spelled does not matter: every third case hands both roots over with a trailing separator,
+		// every third (other) one with a redundant "/." at the end
+		sr, dr := srcDir, dstDir
+		switch evid.H(c.String()) % 3 {
+		case 1:
+			sr, dr = sr+"/", dr+"/"
+		case 2:
+			sr, dr = sr+"/.", dr+"//"
+		}
+		return fscopy.Copy(context.Background(), sr, c.Src, dr, c.Dst, fscopy.WithCopyInfo(ci))
 	}); err != nil {
 		if err == errCopyHangs {
 			return "copy-hangs", err.Error()
@@ -405,7 +414,11 @@ func xfailTree() fsmodel.Tree {
 	big := strings.Repeat("B", bigXattr)
 	t := fsmodel.Tree{f("a", map[string]string{"user.k": big}), f("b", map[string]string{"user.k": "small", "user.o": "o"}),
 		{Path: "d", Kind: fsmodel.Dir, Perm: 0755, Mtime: fsmodel.T0, Xattrs: map[string]string{"user.k": "dir"}}, f("d/c", map[string]string{"user.k": "c"}),
-		f("d/e", map[string]string{"user.k": big}), f("z", map[string]string{"user.k": "z", "user.z": "zz"})}
+		f("d/e", map[string]string{"user.k": big}), f("z", map[string]string{"user.k": "z", "user.z": "zz"}),
+		// ... and entries that carry a refused value next to values that fit: the handler tolerates the one, the others
+		// are still copied
+		f("m", map[string]string{"user.a": big, "user.z": "after"}), f("n", map[string]string{"user.a": "before", "user.z": big}),
+		f("o", map[string]string{"user.a": "1", "user.m": big, "user.z": "2"})}
 	t.Sort()
 	return t
 }
